@@ -395,7 +395,7 @@ def run_history(desc):
 
 class History(Facet):
     name = "history"
-    examples = {"quick": 20000, "thorough": 240000}
+    examples = {"quick": 20000, "thorough": 720000}
     shards = {"quick": 16, "thorough": 16}
 
     def strategy(self, tier):
